@@ -348,7 +348,29 @@ func runC07(c *ctx, r *Report) error {
 		}
 		r.nontrivial(src)
 	}
-	return nil
+	// AL.Props.C07Rules / C13Parse: in the models of the parser and of the AST-only rules every diagnostic sits at the key /
+	// id / name / value it is about. Same diagnostics (kind, template, arguments) at other positions than the model's: the
+	// implementation's positions are off on that source.
+	per := 6
+	if !c.quick {
+		per = 300
+	}
+	return lwStandard(c, r, func(cs Case) (string, string) {
+		strip := func(s string) string {
+			var out []string
+			for _, d := range strings.Split(s, ";") {
+				if f := strings.SplitN(d, ":", 3); len(f) == 3 {
+					out = append(out, f[2])
+				}
+			}
+			sort.Strings(out)
+			return strings.Join(out, ";")
+		}
+		if cs.Impl != cs.Model && strip(cs.Impl) == strip(cs.Model) {
+			return "position-differs-from-proved-model", "the same diagnostics as the model of the parser / the AST-only rules, at other positions"
+		}
+		return "", ""
+	}, per, false)
 }
 
 var reLineRef = regexp.MustCompile(`line:(\d+)`)
